@@ -1132,6 +1132,8 @@ def _unroll_table_setattr(ctx: RuleCtx, mod: Module, cls: str, fn: T.Any) -> T.A
                 tab_e = key_e = None
                 if isinstance(e, ast.Subscript) and not isinstance(e.slice, ast.Slice):
                     tab_e, key_e = e.value, e.slice
+                elif isinstance(e, ast.Call) and isinstance(e.func, ast.Attribute) and e.func.attr == 'get' and len(e.args) == 1 and not e.keywords:
+                    tab_e, key_e = e.func.value, e.args[0]    # a missing key gives getattr(self, None): TypeError, like the KeyError of T[k]
                 if tab_e is not None:
                     try:
                         table = _class_const(ctx, mod, cls, tab_e)
@@ -1194,6 +1196,16 @@ def _res_pred(ctx: RuleCtx, mod: Module, a: Atom, subject: str, cls: str = 'Test
             return {m} if m else None
     if a.kind == 'in' and a.args[0] == subject:
         return _member_set(ctx, mod, a.args[1], cls)
+    if a.kind == 'is' and a.args[1] == 'None':
+        # `TABLE.get(subject) is None`: the members that are not keys of the constant table
+        try:
+            pe = ast.parse(a.args[0], mode='eval').body
+        except SyntaxError:
+            pe = None
+        if isinstance(pe, ast.Call) and isinstance(pe.func, ast.Attribute) and pe.func.attr == 'get' and len(pe.args) == 1 and not pe.keywords and norm(pe.args[0]) == subject:
+            keys = _member_set(ctx, mod, norm(pe.func.value), cls)
+            if keys is not None:
+                return set(_enum_names(mod, 'TestResult')) - keys
     if a.kind == 'isinstance' and a.args[0] == subject and a.args[1] == ('TestResult',):
         return set(_enum_names(mod, 'TestResult'))
     if a.kind == 'truth' and a.args[0].startswith(subject + '.') and a.args[0].endswith('()'):
@@ -1937,7 +1949,7 @@ def r4(ctx: RuleCtx) -> None:
     tab = tables.extract(fn, effects=eff, unroll=0, name=fq)
     counter_of: T.Dict[str, str] = {}
     all_atoms = tab.atoms()
-    free_atoms = [a for a in all_atoms if _res_pred(ctx, mod, a, subj) is None]
+    free_atoms = [a for a in all_atoms if _res_pred(ctx, mod, a, subj, 'TestHarness') is None]
     for a in free_atoms:
         if a != badres and not (a.kind == 'truth' and a.args[0].startswith('self.') and a.args[0].replace('self.', '').isidentifier()):
             raise Undecided(f'{fq}: arm selected by an unknown condition {a!r}')
@@ -1951,7 +1963,7 @@ def r4(ctx: RuleCtx) -> None:
             for r in tab.rows:
                 ok = True
                 for a, v in r.conds.items():
-                    t = fw[a] if a in fw else (m in T.cast(T.Set[str], _res_pred(ctx, mod, a, subj)))
+                    t = fw[a] if a in fw else (m in T.cast(T.Set[str], _res_pred(ctx, mod, a, subj, 'TestHarness')))
                     if t != v:
                         ok = False
                         break
@@ -2244,6 +2256,27 @@ def _records_to_tuples(mod: Module, fn: T.Any) -> T.Any:
     return f2
 
 
+class _IsliceToSlice(ast.NodeTransformer):
+    """Normal form: `list(islice(x, a, b, c))` / `list(itertools.islice(x, a))` over a name -> the subscript `x[a:b:c]`
+    (same elements for a list x); a bare `list(x[...])` copy of a slice is the slice."""
+
+    def visit_Call(self, n: ast.Call) -> ast.AST:
+        self.generic_visit(n)
+        if isinstance(n.func, ast.Name) and n.func.id in ('list', 'tuple') and len(n.args) == 1 and not n.keywords:
+            a = n.args[0]
+            if isinstance(a, ast.Subscript) and isinstance(a.slice, ast.Slice):
+                return a if n.func.id == 'list' else n
+            if isinstance(a, ast.Call) and (call_name(a) or '').split('.')[-1] == 'islice' and not a.keywords and 2 <= len(a.args) <= 4 and isinstance(a.args[0], ast.Name) \
+                    and n.func.id == 'list':
+                def part(x: ast.AST) -> T.Optional[ast.expr]:
+                    return None if isinstance(x, ast.Constant) and x.value is None else T.cast(ast.expr, x)
+                rest = a.args[1:]
+                lo, hi, st = (None, rest[0], None) if len(rest) == 1 else (rest[0], rest[1], rest[2] if len(rest) == 3 else None)
+                return ast.copy_location(ast.Subscript(value=a.args[0], slice=ast.Slice(lower=part(lo) if lo is not None else None, upper=part(hi) if hi is not None else None,
+                                                                                       step=part(st) if st is not None else None), ctx=ast.Load()), n)
+        return n
+
+
 def _desugar_comprehensions(fn: T.Any) -> T.Any:
     """Normal form: `x = [E for t in it if c]` -> `x = []` + `for t in it: if c: x.append(E)` (single generator)."""
     f2 = tables._copy(fn)
@@ -2367,6 +2400,8 @@ def r5(ctx: RuleCtx) -> None:
             # reads of the incoming list (`n = len(tests)` hoisted before the guard) all precede the one re-binding: SSA-rename the result
             out_stores[0].id = var + '__selected'
     shell = _propagated(shell)
+    shell.body = [_IsliceToSlice().visit(st) for st in shell.body]
+    ast.fix_missing_locations(shell)
     stab = tables.extract(shell, body=shell.body, effects=eff, inline=False, name=gq + ':slice')
     want_slice = f'{var}[{iv} - 1::{nv}]'
     few = Atom('cmp', ('lt', f'len({var})', nv))
@@ -2381,6 +2416,14 @@ def r5(ctx: RuleCtx) -> None:
             if r.conds.get(few) is not True:
                 bad = bad or f'`{r!r}`: the request is rejected although there are at least as many tests as slices'
         elif list(r.effects) != [want_slice]:
+            # closed world: only a subscript of the list with a slice built from the two roles, constants and + - is a shape this rule reads
+            for e_ in r.effects:
+                pe = ast.parse(e_, mode='eval').body
+                read = isinstance(pe, ast.Subscript) and isinstance(pe.value, ast.Name) and pe.value.id == var and isinstance(pe.slice, ast.Slice) and all(
+                    isinstance(n, (ast.Slice, ast.BinOp, ast.Add, ast.Sub, ast.Constant, ast.Attribute, ast.Name, ast.Subscript, ast.Load, ast.UnaryOp, ast.USub))
+                    for n in ast.walk(pe.slice)) and all(attr_chain(n) in (None, chain, 'self', chain.rsplit('.', 1)[0]) or attr_chain(n) == chain for n in ast.walk(pe.slice) if isinstance(n, (ast.Attribute, ast.Name)))
+                if not read:
+                    raise Undecided(f'{gq}: the selected tests are `{e_}`, a shape this rule does not read')
             bad = bad or f'`{r!r}`: the selected tests are {list(r.effects) or "unchanged"}; offset SLICE-1 and stride NUM_SLICES require {want_slice}'
     ctx.require(bad is None and nrows > 0, f'get_tests: {want_slice} ({nrows} rows)', mod, gq, st_if,
                 f'--slice does not select every NUM_SLICES-th test starting at SLICE-1: {bad}', st_if)
@@ -2483,7 +2526,8 @@ def r6(ctx: RuleCtx) -> None:
                     continue
                 gens.append((f'TestHarness.{inner.func.attr}', g, params[pos[0]], None))
                 ctx.ok(f'`{short(st, 90)}` takes the tests from {inner.func.attr}({params[pos[0]]})')
-            elif isinstance(inner, ast.Subscript) and isinstance(inner.value, ast.Name) and inner.value.id == var:
+            elif (isinstance(inner, ast.Subscript) and isinstance(inner.value, ast.Name) and inner.value.id == var) or \
+                    (isinstance(inner, ast.Call) and (call_name(inner) or '').split('.')[-1] == 'islice' and inner.args and isinstance(inner.args[0], ast.Name) and inner.args[0].id == var):
                 ctx.ok(f'`{short(st, 90)}` takes a sub-sequence')
             else:
                 raise Undecided(f'{gq}: unknown way of building the selection: {short(st)}')
